@@ -77,6 +77,8 @@ def triple(m, n):
 class Runner:
     def __init__(self):
         self.np, self.st, self.gd, self.cv = _mods()
+        import geodepy.angles as an
+        self.an = an
         self.calls = 0
 
     def _call(self, ev, fn, post):
@@ -123,7 +125,12 @@ class Runner:
                     def post(r, ev=ev, res=res):
                         res["v"] = [float(x) for x in r]
                         ev["y"] = enc_v(res["v"])
-                    self._call(ev, lambda: f(lat, lon, v[0], v[1], v[2]), post)
+                    # latitude / longitude as floats or as objects of one of the five angle classes in turn
+                    self.forms = getattr(self, "forms", 0) + 1
+                    an = self.an
+                    mk = [lambda x: x, an.DECAngle, an.dec2hpa, an.dec2gona, an.dec2dms, an.dec2ddm, lambda x: x][self.forms % 7]
+                    ev["latlon_form"] = ["float", "dec", "hp", "gon", "dms", "ddm", "float"][self.forms % 7]
+                    self._call(ev, lambda: f(mk(lat), mk(lon), v[0], v[1], v[2]), post)
                 else:
                     a = "VcvC2L" if frame == "cart" else "VcvL2C"
                     f = st.vcv_cart2local if frame == "cart" else st.vcv_local2cart
